@@ -280,6 +280,18 @@ func (g *c05Gen) nearMiss(types []string, ops []operand.Op) string {
 	case t == "imm32":
 		ops[i] = pick(g.r, []operand.Op{operand.U64(1 << 32), operand.I64(-(1 << 31) - 1), operand.U64(0xffffffff)})
 		return "imm-wider"
+	case t == "al" || t == "cl" || t == "ax" || t == "eax" || t == "rax" || t == "xmm0":
+		// another view of the very same register, or its neighbour: must not match the fixed-register row
+		alt := map[string][]operand.Op{
+			"al":   {reg.AH, reg.AX, reg.EAX, reg.RAX, reg.CL},
+			"cl":   {reg.CH, reg.CX, reg.ECX, reg.RCX, reg.AL},
+			"ax":   {reg.AL, reg.AH, reg.EAX, reg.RAX, reg.CX},
+			"eax":  {reg.AL, reg.AX, reg.RAX, reg.ECX},
+			"rax":  {reg.AL, reg.AX, reg.EAX, reg.RCX},
+			"xmm0": {reg.Y0, reg.Z0, reg.X1},
+		}
+		ops[i] = pick(g.r, alt[t])
+		return "fixed-reg-view"
 	case t == "r8" || t == "r16" || t == "r32" || t == "r64":
 		sizes := map[string]uint{"r8": 1, "r16": 2, "r32": 4, "r64": 8}
 		s := pick(g.r, []uint{1, 2, 4, 8})
